@@ -129,3 +129,18 @@ func init() {
 		Rules:       []ruleFn{ruleR15_1, ruleR02_1, ruleR15_3, ruleR15_4, ruleR15_5, ruleR13_3, ruleR03_3},
 	})
 }
+
+func init() {
+	register(&propertySpec{
+		ID: "C16", NeedsServer: true,
+		Explanation: "decides that every handler goroutine sends exactly one reply on every exit (panic path included) with the fields the exit code reads initialised first, that storage is mutated only by the final commit step, that an error can never be reported as success, that every RPC returns a response or a non-nil error, that the client turns every error response into a handled error, that lock failures are answered, and that a plain push-pull for an unknown datatype is refused (known finding F19: it is handled by way of a nil dereference). NOT decided: promptness (timing); panics on nil sub-messages of well-formed requests (they become error replies through the recover branch).",
+		Assumptions: []string{"gRPC delivers the returned error to the client"},
+		Rules:       []ruleFn{ruleR16_1, ruleR16_2, ruleR16_3, ruleR16_4, ruleR08_3, ruleR16_6, ruleR16_7, ruleR12_1, ruleR12_2, ruleR08_2},
+	})
+	register(&propertySpec{
+		ID: "C17", NeedsServer: true,
+		Explanation: "decides that every lookup and purge is scoped: key lookups constrain the collection number, the client is bound to its collection before handlers run, purges filter the right field with the purged collection's number, filters are fresh values, lock names and the key lookup of the handler use (collection number, key); and whether the id-only lookup is collection-checked (known finding F12: it is not). NOT decided: independence of same-key datatypes over whole histories.",
+		Assumptions: []string{"collection numbers are unique per collection"},
+		Rules:       []ruleFn{ruleR17_1, ruleR17_2, ruleR17_3, ruleR17_4, ruleR17_6, ruleR12_4, ruleR13_2},
+	})
+}
